@@ -1,4 +1,5 @@
 import I2N.Lemmas.Trav
+import I2N.Lemmas.TravResults
 import I2N.Model.TravMon
 /-!
 # C03 — No test is executed more often than its retry budget per reuse scope
@@ -85,5 +86,294 @@ theorem present_not_run (g : Graph) (s : State) (n w : Nat)
   · unfold disableRerun; rw [nd_setNd_eq _ _ _ hn]
   · intro m
     exact nd_disableRerun_proj (·.results) (fun _ => rfl) s n m
+
+/-!
+## Bookkeeping along every run
+
+Inductive invariants over `ReachableR g ncls store s`: the states reachable from `initState g ncls store` by
+any sequence of `resume` steps of real workers (`w < g.workers.length`), with any outcomes (including "never
+reported") and any positive fuel.  (With fuel 0 the model stops a step before the program counter is reset —
+an artefact of the driver's iteration bound — so fuel 0 is excluded.)  Hypotheses on the graph are decidable:
+`graphWF g` (root and edge end points are node indices), `namesInjB g` (distinct copies have distinct names),
+`preFreshB g` (no test proper is named like a creation pre-step).
+-/
+
+section results
+
+/-- **results_monotone.**  Along any step of worker `w` the result list of every node copy `m` keeps all its
+elements in their order — whatever is new is appended behind — except for the UNKNOWN placeholder whose `tag`
+is the one in `w`'s own program counter, awaited at `m` (`removable`): only `resumeTest` of the worker owning
+the tag takes a placeholder away.  Consequences: every non-UNKNOWN result stays; every placeholder with another
+tag stays; and if `w` is not awaiting a test proper at `m`, the list of `m` is an initial segment of the new one. -/
+theorem results_monotone {g : Graph} (hwf : graphWF g = true) {ncls : Nat} {store : List (String × List (String × String))}
+    {s : State} (hr : ReachableR g ncls store s) (w : Nat) (out : Outcome) (fuel : Nat)
+    (hw : w < g.workers.length) (hf : 0 < fuel) (m : Nat) :
+    ((s.nd m).results.filter (fun r => !removable s w m r)).Sublist ((resume g s w out fuel).1.nd m).results ∧
+    (∀ r ∈ (s.nd m).results, r.status ≠ "UNKNOWN" → r ∈ ((resume g s w out fuel).1.nd m).results) ∧
+    (∀ r ∈ (s.nd m).results, (∀ n ph dir uid tag wait, (s.wd w).pc = .test n ph dir uid tag wait → tag ≠ r.tag) →
+      r ∈ ((resume g s w out fuel).1.nd m).results) ∧
+    ((∀ n ph dir uid tag wait, (s.wd w).pc = .test n ph dir uid tag wait → ph = .pre ∨ n ≠ m) →
+      (s.nd m).results <+: ((resume g s w out fuel).1.nd m).results) := by
+  have b := hr.basic hwf
+  have hws : w < s.workers.length := by rw [b.workersLen]; exact hw
+  have h1 := resume_results_sublist g (GraphWF.of_bool hwf) s w out fuel hf hws (b.paths w) m
+  refine ⟨h1, ?_, ?_, resume_results_prefix g (GraphWF.of_bool hwf) s w out fuel hf hws (b.paths w) m⟩
+  · intro r hr' hst
+    refine h1.subset (List.mem_filter.mpr ⟨hr', ?_⟩)
+    unfold removable isPh
+    split <;> simp [hst]
+  · intro r hr' htag
+    refine h1.subset (List.mem_filter.mpr ⟨hr', ?_⟩)
+    unfold removable isPh
+    split
+    · rfl
+    · rename_i n ph dir uid tag wait _ hpc
+      have := htag n ph dir uid tag wait hpc
+      simp [Ne.symm this]
+    · rfl
+
+/-- **unknown_before_suspend.**  In every reachable state, a worker suspended in a test proper (phase plain or
+main) of copy `n` — in particular right after the step that started it — has its placeholder
+`{status := "UNKNOWN", tag}` in the results of `n`, hence in the `sharedResults` every other worker's
+`shouldRerun` looks at through its own copy `n'` of the class: the execution in flight is counted. -/
+theorem unknown_before_suspend {g : Graph} (hwf : graphWF g = true) {ncls : Nat} {store : List (String × List (String × String))}
+    {s : State} (hr : ReachableR g ncls store s) (w n : Nat) (ph : Phase) (dir : Dir) (uid : String) (tag wait : Nat)
+    (hpc : (s.wd w).pc = .test n ph dir uid tag wait) (hph : ph ≠ .pre) :
+    phOf (g.node n).name tag ∈ (s.nd n).results ∧
+    ∀ n', (g.node n').flat = false → (g.node n).cls = (g.node n').cls → phOf (g.node n).name tag ∈ sharedResults g s n' := by
+  have b := hr.basic hwf
+  have h := (b.placeholder w n ph dir uid tag wait trivial hpc).1 hph
+  exact ⟨h, fun n' hflat hcls => mem_sharedResults g s n n' _ (b.pcOK w n ph dir uid tag wait trivial hpc).1 hflat hcls h⟩
+
+/-- … while the placeholder of a creation pre-step lives on the worker's private copy of the results. -/
+theorem unknown_before_suspend_pre {g : Graph} (hwf : graphWF g = true) {ncls : Nat} {store : List (String × List (String × String))}
+    {s : State} (hr : ReachableR g ncls store s) (w n : Nat) (dir : Dir) (uid : String) (tag wait : Nat)
+    (hpc : (s.wd w).pc = .test n .pre dir uid tag wait) :
+    phOf (s.wd w).preName tag ∈ (s.wd w).preResults ∧ (g.node n).objectRoot = true := by
+  have b := hr.basic hwf
+  refine ⟨(b.placeholder w n .pre dir uid tag wait trivial hpc).2 rfl, ?_⟩
+  have := (b.pcOK w n .pre dir uid tag wait trivial hpc).2.2.2.1
+  cases hc : (g.node n).objectRoot
+  · exact absurd (this.mp hc) (by decide)
+  · rfl
+
+/-- the tags of executions in flight are pairwise distinct and below the tag counter -/
+theorem tags_distinct {g : Graph} (hwf : graphWF g = true) {ncls : Nat} {store : List (String × List (String × String))}
+    {s : State} (hr : ReachableR g ncls store s) (v v' n n' : Nat) (ph ph' : Phase) (dir dir' : Dir) (uid uid' : String)
+    (tag tag' wait wait' : Nat) (hvv : v ≠ v')
+    (hpc : (s.wd v).pc = .test n ph dir uid tag wait) (hpc' : (s.wd v').pc = .test n' ph' dir' uid' tag' wait') :
+    tag ≠ tag' ∧ tag < s.nextTag :=
+  ⟨(hr.basic hwf).tagsDistinct v v' n ph dir uid tag wait n' ph' dir' uid' tag' wait' trivial trivial hvv hpc hpc',
+   ((hr.basic hwf).pcOK v n ph dir uid tag wait trivial hpc).2.2.1⟩
+
+/-! Witness of known finding `count:object-root-creation-hidden-from-retry-budget`: while `net1` creates the vm
+(pre-step of the object root, retries enabled), the results the other worker's decision looks at are empty;
+`net2` starts a second creation of the same class although `max_tries = 1`. -/
+
+def gR : Graph :=
+  { workers := [{ id := "net1", swarm := "localhost" }, { id := "net2", swarm := "localhost" }],
+    nodes := [
+      { cls := 0, owner := some 0, name := "all.root.vms.vm1.nets.localhost.net1", pfx := "1a1", objectRoot := true,
+        sets := [("vm1", "root")], objs := ["vm1"], setup := [(2, ["vm1"])], maxTries := some 1, mct := some 2 },
+      { cls := 0, owner := some 1, name := "all.root.vms.vm1.nets.localhost.net2", pfx := "1b1", objectRoot := true,
+        sets := [("vm1", "root")], objs := ["vm1"], setup := [(2, ["vm1"])], maxTries := some 1, mct := some 2 },
+      { cls := 1, owner := none, name := "all.internal.stateless.noop", pfx := "1", flat := true, sharedRoot := true,
+        cleanup := [(0, ["vm1"]), (1, ["vm1"])] }],
+    root := 2 }
+
+/-- is worker `w` suspended in phase `ph` of copy `n` -/
+def inTestAt (s : State) (w n : Nat) (ph : Phase) : Bool :=
+  match (s.wd w).pc with
+  | .test n' ph' _ _ _ _ => n' == n && ph' == ph
+  | _ => false
+
+def sR1 : State := (resume gR (initState gR 2 []) 0 { status := none } 20).1
+def sR2 : State := (resume gR sR1 1 { status := none } 20).1
+
+example : graphWF gR = true := by decide
+example : inTestAt sR1 0 0 .pre = true ∧ ((sR1.wd 0).preResults.map (·.status)) = ["UNKNOWN"] ∧
+    sharedResults gR sR1 1 = [] := by decide
+example : inTestAt sR2 0 0 .pre = true ∧ inTestAt sR2 1 1 .pre = true := by decide
+
+end results
+
+section identifiers
+
+/-- **uids_distinct_trav.**  In every reachable state the job records of the parsed copies of classes without
+object roots carry pairwise distinct (name, uid): the list of the keys of `jobResults`, restricted to the names
+of such copies, has no duplicates.  (Each `startTest` of a test proper uses `uidOf pfx k` with `k` the number
+of results of the whole class, which only grows — `results_monotone`, placeholder exactly once — and is raised
+by the placeholder before anybody else can start; `uidOf` is injective in `k`; distinct copies have distinct
+names.) -/
+theorem uids_distinct_trav {g : Graph} (hwf : graphWF g = true) (hN : namesInjB g = true) (hP : preFreshB g = true)
+    {ncls : Nat} {store : List (String × List (String × String))} {s : State} (hr : ReachableR g ncls store s) :
+    ((s.jobResults.map (fun r => (r.1, r.2.1))).filter (fun k => goodName g k.1)).Nodup :=
+  (hr.uids hwf (namesInjB_sound hN) (preFreshB_sound hP)).nodup
+
+/-- … and the executions in flight (reported or not, "never reported" included) carry identifiers that differ
+from each other, each being `uidOf pfx k` for a counter `k` below the current number of results of the class. -/
+theorem uids_inflight_distinct {g : Graph} (hwf : graphWF g = true) (hN : namesInjB g = true) (hP : preFreshB g = true)
+    {ncls : Nat} {store : List (String × List (String × String))} {s : State} (hr : ReachableR g ncls store s)
+    (v n : Nat) (dir : Dir) (uid : String) (tag wait : Nat) (hpc : (s.wd v).pc = .test n .plain dir uid tag wait)
+    (hg : good g n = true) :
+    (∃ k, k < classLen g s (g.node n).cls ∧ uid = uidOf (g.node n).pfx k) ∧
+    ∀ v' n' dir' uid' tag' wait', v ≠ v' → (s.wd v').pc = .test n' .plain dir' uid' tag' wait' →
+      ((g.node n).name, uid) ≠ ((g.node n').name, uid') := by
+  have u := hr.uids hwf (namesInjB_sound hN) (preFreshB_sound hP)
+  exact ⟨u.inflight v n dir uid tag wait trivial hpc hg,
+    fun v' n' dir' uid' tag' wait' hvv hpc' => u.distinct v v' n dir uid tag wait n' dir' uid' tag' wait' trivial trivial hvv hpc hpc' hg⟩
+
+/-- **own_result_read.**  In every reachable state, an execution in flight of a test proper has no job record
+under its (name, uid) yet.  Hence the lookup of `resumeTest` — the first record with this (name, uid), after
+the stub appended the outcome at `wait = 0` — finds exactly the record reported by this very execution and
+never a stale one; and when nothing is reported it finds nothing. -/
+theorem own_result_read {g : Graph} (hwf : graphWF g = true) (hN : namesInjB g = true) (hP : preFreshB g = true)
+    {ncls : Nat} {store : List (String × List (String × String))} {s : State} (hr : ReachableR g ncls store s)
+    (w n : Nat) (dir : Dir) (uid : String) (tag wait : Nat) (hpc : (s.wd w).pc = .test n .plain dir uid tag wait)
+    (hg : good g n = true) :
+    s.jobResults.find? (fun r => r.1 == (g.node n).name && r.2.1 == uid) = none ∧
+    ∀ st d, (s.jobResults ++ [((g.node n).name, uid, st, d)]).find? (fun r => r.1 == (g.node n).name && r.2.1 == uid) =
+      some ((g.node n).name, uid, st, d) := by
+  have u := hr.uids hwf (namesInjB_sound hN) (preFreshB_sound hP)
+  have hnone : s.jobResults.find? (fun r => r.1 == (g.node n).name && r.2.1 == uid) = none := by
+    rw [List.find?_eq_none]
+    intro x hx hp
+    simp only [Bool.and_eq_true, beq_iff_eq] at hp
+    apply u.unreported w n dir uid tag wait trivial hpc hg
+    unfold keys
+    exact List.mem_map.mpr ⟨x, hx, by rw [hp.1, hp.2]⟩
+  refine ⟨hnone, fun st d => ?_⟩
+  rw [List.find?_append, hnone]
+  simp
+
+/-- … and the step in which an execution of a test proper reports outcome `st` files, on the copy it ran on,
+a result with this execution's uid, the reported duration and the reported status (a PASS may be downgraded
+to WARN by the duration rule) — the result read is the worker's own. -/
+theorem own_result_filed {g : Graph} (hwf : graphWF g = true) (hN : namesInjB g = true) (hP : preFreshB g = true)
+    {ncls : Nat} {store : List (String × List (String × String))} {s : State} (hr : ReachableR g ncls store s)
+    (w n : Nat) (dir : Dir) (uid : String) (tag : Nat) (hpc : (s.wd w).pc = .test n .plain dir uid tag 0)
+    (hg : good g n = true) (out : Outcome) (st : String) (hst : out.status = some st) (fuel : Nat) (hf : 0 < fuel) :
+    ∃ res ∈ ((resume g s w out fuel).1.nd n).results, res.uid = uid ∧ res.dur = out.dur ∧
+      (res.status = st ∨ (st = "PASS" ∧ res.status = "WARN")) :=
+  resume_files_own_result (GraphWF.of_bool hwf) (hr.basic hwf) (hr.uids hwf (namesInjB_sound hN) (preFreshB_sound hP))
+    w n dir uid tag hpc hg out st hst fuel hf
+
+end identifiers
+
+section budget
+
+/-- a stateless test is run only while its class has fewer results — of whatever status, the placeholders of
+executions in flight included — than `max(max_tries, 1)`; the decision leaves the state alone -/
+theorem stateless_run_rule (g : Graph) (s : State) (n w : Nat) (s1 : State) (evs : List Event)
+    (hsets : (g.node n).sets.isEmpty = true) (h : runDecision g s n w = .ok (true, s1, evs)) :
+    s1 = s ∧ ((sharedResults g s n).length : Int) < max ((g.node n).maxTries.getD 1) 1 :=
+  ⟨(runDecision_true_stateless g s n w s1 evs hsets h).1, (runDecision_true_stateless g s n w s1 evs hsets h).2.2⟩
+
+/-- every start of a test proper (or of the second step of a creation) appends exactly one result — the
+placeholder — to the copy it runs on and none elsewhere -/
+theorem start_appends_one (g : Graph) (s : State) (n w : Nat) (ph : Phase) (dir : Dir) (hph : ph ≠ .pre)
+    (hn : n < s.nodes.length) :
+    ((startTest g s n w ph dir).1.nd n).results = (s.nd n).results ++ [phOf (g.node n).name s.nextTag] ∧
+    ∀ j, j ≠ n → ((startTest g s n w ph dir).1.nd j).results = (s.nd j).results := by
+  constructor
+  · rcases startTest_results g s n w ph dir n with h | ⟨_, _, _, h⟩
+    · exfalso
+      have := (startTest_nonpre_len g s n w ph dir hph hn).1
+      rw [h] at this; omega
+    · exact h
+  · intro j hj
+    rcases startTest_results g s n w ph dir j with h | ⟨_, h, _⟩
+    · exact h
+    · exact absurd h hj
+
+/-- **budget_stateless** (C03 for stateless classes, global scope).  For a class `c` of stateless tests proper
+(no set states, no object root) whose copies agree on `max_tries = M`: in every reachable state the class has
+at most `max(M, 1)` results, placeholders of executions in flight included.  Since every start appends exactly
+one result (`start_appends_one`), results of such classes are never removed or added otherwise
+(`results_monotone`; a placeholder is replaced by the result of its own execution), the class is started at
+most `max(max_tries, 1)` times along any run, by whichever workers. -/
+theorem budget_stateless {g : Graph} (hwf : graphWF g = true) {ncls : Nat} {store : List (String × List (String × String))}
+    {s : State} (hr : ReachableR g ncls store s) (c : Nat) (M : Option Int) (hc : statelessClass g c M = true) :
+    (classLen g s c : Int) ≤ max (M.getD 1) 1 ∧
+    ∀ i, i < g.nodes.length → (g.node i).flat = false → (g.node i).cls = c →
+      ((sharedResults g s i).length : Int) ≤ max (M.getD 1) 1 := by
+  have h := hr.budget hwf c M hc
+  refine ⟨h, fun i hi hflat hcls => ?_⟩
+  rw [sharedResults_length g s i hi hflat, hcls]
+  exact h
+
+/-- **budget_stateful_partial.**  For stateful tests only the one-step rule is proved: a stateful test is run
+only (a) on the scan path — nobody of the scope finished the class and the state control reports a set state
+missing; neither earlier results nor executions in flight are looked at — or (b) by the rerun rule,
+`max_tries ≠ 1` and fewer counted results in the reuse scope (placeholders included) than `max_tries`.
+NOT proved (and false in general, see the witness below): a bound of `max(max_tries, 1)` on the number of
+executions per scope along runs.  The missing part is a bound on the number of scan-path starts, which needs
+the exclusion invariant of C04 (`#started copies in scope ≤ max(max_concurrent_tries, 1)` while nobody
+finished) under `max_concurrent_tries ≤ max(max_tries, 1)`, and the agreement of the scope filter on result
+names with the scope of `is_finished`. -/
+theorem budget_stateful_partial (g : Graph) (s : State) (n w : Nat) (s1 : State) (evs : List Event)
+    (hsets : (g.node n).sets.isEmpty = false) (h : runDecision g s n w = .ok (true, s1, evs)) :
+    (isFinished g s n w 1 = false ∧ (scanStates g s n w).1 = true) ∨
+    (((countedResults g s1 n w).length : Int) < (g.node n).maxTries.getD 1 ∧ (g.node n).maxTries.getD 1 ≠ 1) :=
+  runDecision_true_stateful g s n w s1 evs hsets h
+
+/-! Witness of known finding `count:mct>max_tries`: `max_tries = 1`, `max_concurrent_tries = 2`, a stateful
+setup class, two workers — two `startTest`s of the class happen (both executions in flight, two results in the
+class), reached by explicit `resume` steps. -/
+
+def gW : Graph :=
+  { workers := [{ id := "net1", swarm := "localhost" }, { id := "net2", swarm := "localhost" }],
+    nodes := [
+      { cls := 0, owner := some 0, name := "all.install.vms.vm1.nets.localhost.net1", pfx := "1a1",
+        sets := [("vm1", "install")], objs := ["vm1"], setup := [(2, ["vm1"])], maxTries := some 1, mct := some 2 },
+      { cls := 0, owner := some 1, name := "all.install.vms.vm1.nets.localhost.net2", pfx := "1b1",
+        sets := [("vm1", "install")], objs := ["vm1"], setup := [(2, ["vm1"])], maxTries := some 1, mct := some 2 },
+      { cls := 1, owner := none, name := "all.internal.stateless.noop", pfx := "1", flat := true, sharedRoot := true,
+        cleanup := [(0, ["vm1"]), (1, ["vm1"])] }],
+    root := 2 }
+
+def sW1 : State := (resume gW (initState gW 2 []) 0 { status := none } 20).1
+def sW2 : State := (resume gW sW1 1 { status := none } 20).1
+
+example : ReachableR gW 2 [] sW2 :=
+  .step 1 _ 20 (.step 0 _ 20 (.init []) (by decide) (by decide)) (by decide) (by decide)
+example : inTestAt sW2 0 0 .plain = true ∧ inTestAt sW2 1 1 .plain = true ∧ classLen gW sW2 0 = 2 ∧
+    (max ((gW.node 0).maxTries.getD 1) 1 = 1) := by decide
+
+/-! Non-vacuity: a stateless class with `max_tries = 2` and two workers; both executions allowed by the budget
+are started (the second one counts the placeholder of the first: uid `…r1`), the first fails, nothing more is
+started. -/
+
+def gS : Graph :=
+  { workers := [{ id := "net1", swarm := "localhost" }, { id := "net2", swarm := "localhost" }],
+    nodes := [
+      { cls := 0, owner := some 0, name := "all.quicktest.vms.vm1.nets.localhost.net1", pfx := "1a1",
+        objs := ["vm1"], setup := [(2, ["vm1"])], maxTries := some 2 },
+      { cls := 0, owner := some 1, name := "all.quicktest.vms.vm1.nets.localhost.net2", pfx := "1b1",
+        objs := ["vm1"], setup := [(2, ["vm1"])], maxTries := some 2 },
+      { cls := 1, owner := none, name := "all.internal.stateless.noop", pfx := "1", flat := true, sharedRoot := true,
+        cleanup := [(0, ["vm1"]), (1, ["vm1"])] }],
+    root := 2 }
+
+def sS1 : State := (resume gS (initState gS 2 []) 0 { status := none } 20).1
+def sS2 : State := (resume gS sS1 1 { status := none } 20).1
+def sS3 : State := (resume gS sS2 0 { status := some "FAIL", dur := 3 } 20).1
+
+example : graphWF gS = true ∧ namesInjB gS = true ∧ preFreshB gS = true ∧ statelessClass gS 0 (some 2) = true ∧
+    good gS 0 = true ∧ good gS 1 = true := by decide
+example : ReachableR gS 2 [] sS3 :=
+  .step 0 _ 20 (.step 1 _ 20 (.step 0 _ 20 (.init []) (by decide) (by decide)) (by decide) (by decide)) (by decide) (by decide)
+/-- states of a lazily expanded run (nodes not parsed yet are `hidden`) are covered as well -/
+example : ReachableR gS 2 [] (resume gS (initState gS 2 [] [0, 1]) 0 { status := none } 20).1 :=
+  .step 0 _ 20 (.init [0, 1]) (by decide) (by decide)
+example : inTestAt sS2 0 0 .plain = true ∧ inTestAt sS2 1 1 .plain = true ∧ classLen gS sS2 0 = 2 := by decide +kernel
+example : (match (sS2.wd 0).pc, (sS2.wd 1).pc with
+    | .test _ _ _ u _ _, .test _ _ _ u' _ _ => (u, u')
+    | _, _ => ("", "")) = ("1a1", "1b1r1") := by decide +kernel
+example : sS3.jobResults = [("all.quicktest.vms.vm1.nets.localhost.net1", "1a1", "FAIL", 3)] ∧
+    (sS3.nd 0).results.map (·.status) = ["FAIL"] ∧ (sS3.nd 1).results.map (·.status) = ["UNKNOWN"] ∧
+    inTestAt sS3 0 0 .plain = false := by decide +kernel
+
+end budget
 
 end I2N.Props.C03
